@@ -23,7 +23,8 @@ RULE = ("one generated trait per case: method m of arity 0..5 whose parameter ty
         "written on generator-chosen lines of src/gen.rs, some spread over several lines; a clause setup for each error kind "
         "(NoMockImplementation, NoMatchingCallPatterns with 1-3 patterns, InputsNotMatchedInCallOrder, NoOutputAvailable, "
         "ExplicitPanic, CallOrderNotMatched with and without expected pattern and at every slot of an n_times(k) pattern in line, CannotReturnValueMoreThanOnce, NoMatcherFunction "
-        "by index and by hand-registered pat_debug, CannotUnmock, NoDefaultImpl, verification lines, MockNeverCalled); argument "
+        "by index and by hand-registered pat_debug, CannotUnmock, NoDefaultImpl, verification lines, MockNeverCalled; a second error after a first one "
+        "that the caller caught); module and flattened api forms; argument "
         "tuples searched in the finite domain so that they fail (or match) as the kind needs.  Compared projection: class of "
         "panic, Trait::method, argument renderings in order, pattern path/text/file/line or index, per mismatch (pattern index "
         "if shown, position, actual value); verification lines as a multiset.  distinct = canonical JSON of the case; "
@@ -380,7 +381,7 @@ def failing_tuple(rng, sig, inputs):
 
 SCENARIOS = ["no_impl", "no_match", "no_match", "inorder_mismatch", "inorder_mismatch", "inorder_mismatch", "no_output",
              "explicit_panic", "out_of_range", "wrong_order", "more_than_once", "no_matcher", "cannot_unmock",
-             "no_default", "verify", "verify_counts", "partial_unmock"]
+             "no_default", "verify", "verify_counts", "partial_unmock", "two_errors"]
 
 
 def gen_sig(rng, n):
@@ -485,6 +486,20 @@ def gen_case(rng, scenario, arity):
             vs = failing_tuple(rng, sig, [inp]) or anyvals()
             case["clauses"] = [clause(0, "each", add(inp), ret), clause(0, "each", None, ret)]
             case["calls"] = [(0, vs)]
+    elif scenario == "two_errors":
+        # a first mock-induced panic is caught by the caller, a second, different one is the observed panic: it must be about ITS call
+        inp = gen_input(rng, sig, "single" if rng.random() < 0.7 else None)
+        vs = failing_tuple(rng, sig, [inp]) if arity else None
+        case["clauses"].append(clause(0, "each", add(inp), ret))
+        if vs is None:
+            case["calls"] = [(1, [])]                       # nothing about m can fail: the plain unmentioned-method case
+        elif rng.random() < 0.5:
+            case["calls"] = [(0, vs), (1, [])]              # m unmatched (caught), then aux unmentioned
+            case["swallow"] = True
+        else:
+            vs2 = failing_tuple(rng, sig, [inp]) or vs
+            case["calls"] = [(1, []), (0, vs2)] if rng.random() < 0.6 else [(0, vs), (1, []), (0, vs2)]
+            case["swallow"] = True
     elif scenario == "verify":
         inp = gen_input(rng, sig)
         case["clauses"].append(clause(0, rng.choice(["next", "next", "some"]), add(inp), ret))
@@ -578,7 +593,8 @@ def emit_case(em, k, case):
     tname = f"Tr{k}"
     params = "".join(f", a{i}: {rust_ty(t)}" for i, t in enumerate(sig))
     ret = "NC" if case["ret_nc"] else "i32"
-    em.emit(f"#[unimock(api={tname}Mock)]")
+    flat = k % 3 == 2          # every third trait uses the flattened api form: the MockFn types get names of their own
+    em.emit(f"#[unimock(api=[{tname}m, {tname}aux])]" if flat else f"#[unimock(api={tname}Mock)]")
     # the bounds of the trait's type parameters are written inline or in a `where` clause (every other generic trait): the
     # generated MockFn impl must carry them either way, since debug_inputs picks Debug / `?` by the bounds in scope
     if gen and k % 2 == 1:
@@ -594,7 +610,7 @@ def emit_case(em, k, case):
     wt = ".with_types::<i32, i32>()" if gen else ""
     names = []
     for ci, c in enumerate(case["clauses"]):
-        mock = f"{tname}Mock::{'m' if c['mid'] == 0 else 'aux'}{wt}"
+        mock = (f"{tname}{'m' if c['mid'] == 0 else 'aux'}{wt}" if flat else f"{tname}Mock::{'m' if c['mid'] == 0 else 'aux'}{wt}")
         rnc = case["ret_nc"] and c["mid"] == 0
         for _ in range(case["pad"][1 + ci % 3] if ci else 0):
             em.emit("")
@@ -611,12 +627,15 @@ def emit_case(em, k, case):
     tup = "()" if not names else names[0] if len(names) == 1 else "(" + ", ".join(names) + ")"
     em.emit(f"    let u = {ctor}({tup});")
     q = f"<Unimock as {tname}{'<i32, i32>' if gen else ''}>"
-    for mid, vs in case["calls"]:
+    for ci_, (mid, vs) in enumerate(case["calls"]):
         if mid == 0:
             args = "".join(", " + rust_val(t, v) for t, v in zip(sig, vs))
-            em.emit(f"    let _ = {q}::m(&u{args});")
+            stmt = f"let _ = {q}::m(&u{args});"
         else:
-            em.emit(f"    let _ = {q}::aux(&u);")
+            stmt = f"let _ = {q}::aux(&u);"
+        if case.get("swallow") and ci_ + 1 < len(case["calls"]):
+            stmt = f"let _ = std::panic::catch_unwind(std::panic::AssertUnwindSafe(|| {{ {stmt} }}));"
+        em.emit("    " + stmt)
     em.emit("    drop(u);")
     em.emit("}")
     em.emit()
@@ -688,7 +707,7 @@ def coq_case(k, case):
             clauses.append(f"TCall {c['mid']} {_OPENER[c['opener']]} {sps[0]}")
     calls = "; ".join(f"({mid}, [{'; '.join(coq_val(v) for v in vs)}])" for mid, vs in case["calls"])
     return (f"{{| k_methods := {methods}; k_pats := [{'; '.join(pats)}]; k_partial := {'true' if case['partial'] else 'false'}; "
-            f"k_clauses := [{'; '.join(clauses)}]; k_calls := [{calls}]; k_verify := {'true' if case['verify'] else 'false'} |}}")
+            f"k_clauses := [{'; '.join(clauses)}]; k_calls := [{calls}]; k_verify := {'true' if case['verify'] else 'false'}; k_swallow := {'true' if case.get('swallow') else 'false'} |}}")
 
 
 # ================================================================ projections
